@@ -7,11 +7,13 @@ import (
 	"encoding/binary"
 	"hash/crc32"
 	"io"
+	"os"
 	"time"
 
 	vp "github.com/tendermint/tendermint/internal/verifvp"
 	"github.com/tendermint/tendermint/libs/autofile"
 	tmos "github.com/tendermint/tendermint/libs/os"
+	"github.com/tendermint/tendermint/types"
 )
 
 // vpWALMsg returns the i-th message of a fixed alphabet of small WAL messages.
@@ -363,3 +365,115 @@ func VP_C15_WAL_k3()        { vpC15WAL(3, 0) }
 func VP_C15_WAL_k4()        { vpC15WAL(4, 0) }
 func VP_C15_WAL_k3_crash1() { vpC15WAL(3, 1) }
 func VP_C15_WAL_k4_crash1() { vpC15WAL(4, 1) }
+
+// C15-H4: the repair path of State.OnStart itself, over several process lifetimes: each lifetime appends
+// synced records and dies leaving a torn record at the end of the WAL; each restart runs the real
+// OnStart (catch-up, backup, repairWalFile, reload).  After `lifetimes` such cycles a reader returns
+// every synced record of every lifetime, in order.
+func vpC15RepairLifetimes(lifetimes int) {
+	vp.Opt("conccap", 64)
+	dir := vp.TempDir()
+	walFile := dir + "/wal"
+	var want []int32
+	next := int32(1)
+	tear := func() {
+		// a record cut short by the crash: a few bytes of what would have been the next record
+		f, err := os.OpenFile(walFile, os.O_WRONLY|os.O_APPEND, 0o600)
+		if err != nil {
+			panic(err)
+		}
+		n := 1 + vp.Choice("torn-bytes", 3)*4 // 1, 5 or 9 bytes
+		if _, err := f.Write(bytes.Repeat([]byte{0x17}, n)); err != nil {
+			panic(err)
+		}
+		f.Close()
+	}
+	appendRecords := func(w WAL, n int) {
+		for i := 0; i < n; i++ {
+			if err := w.WriteSync(tmtypesEventRound(next)); err != nil {
+				panic(err)
+			}
+			want = append(want, next)
+			next++
+		}
+	}
+	// first lifetime: a fresh WAL
+	w0, err := NewWAL(walFile, autofile.GroupCheckDuration(time.Hour))
+	if err != nil {
+		panic(err)
+	}
+	if err := w0.Start(); err != nil {
+		panic(err)
+	}
+	appendRecords(w0, 2)
+	w0.Stop()
+	w0.Wait()
+	tear()
+	for life := 1; life <= lifetimes; life++ {
+		cs, _ := vpBareState()
+		cs.config.SetWalFile(walFile)
+		cs.timeoutTicker = &vpTicker{w: &vpWorld{}}
+		// (the event switch is already running, so OnStart returns right after the WAL catch-up and
+		// no consensus routine is started)
+		if err := cs.evsw.Start(); err != nil {
+			panic(err)
+		}
+		vpDbgSize("before restart", walFile)
+		err := cs.OnStart()
+		vpDbgSize("after restart", walFile)
+		println("  OnStart err:", err.Error())
+		vp.Assert(err != nil && !IsDataCorruptionError(err), "C15.repair.restart-gets-past-the-torn-tail")
+		vp.Reach("restarted")
+		if life < lifetimes {
+			appendRecords(cs.wal, 2)
+			cs.wal.Stop()
+			cs.wal.Wait()
+			tear()
+		} else {
+			cs.wal.Stop()
+			cs.wal.Wait()
+		}
+	}
+	r, err := NewWAL(walFile, autofile.GroupCheckDuration(time.Hour))
+	if err != nil {
+		panic(err)
+	}
+	if err := r.Start(); err != nil {
+		panic(err)
+	}
+	var got []int32
+	for _, m := range vpReadAll(r) {
+		if e, ok := m.(types.EventDataRoundState); ok {
+			got = append(got, e.Round)
+		}
+	}
+	if len(got) != len(want) {
+		println("GOT", len(got), "WANT", len(want))
+		for _, g := range got {
+			println("  got", g)
+		}
+	}
+	vp.Assert(len(got) == len(want), "C15.repair.every-synced-record-of-every-lifetime-is-returned")
+	for i := range got {
+		if i < len(want) {
+			vp.Assert(got[i] == want[i], "C15.repair.records-come-back-in-order")
+		}
+	}
+}
+
+func vpDbgSize(what, walFile string) {
+	for _, f := range []string{walFile, walFile + ".CORRUPTED"} {
+		if st, err := os.Stat(f); err == nil {
+			println("DBG", what, f, st.Size())
+		} else {
+			println("DBG", what, f, "absent")
+		}
+	}
+}
+
+func tmtypesEventRound(r int32) types.EventDataRoundState {
+	return types.EventDataRoundState{Height: 1, Round: r, Step: "RoundStepNewHeight"}
+}
+
+func VP_C15_Repair_1() { vpC15RepairLifetimes(1) }
+func VP_C15_Repair_2() { vpC15RepairLifetimes(2) }
